@@ -10,8 +10,11 @@ import (
 
 	"github.com/restic/restic/internal/backend"
 	"github.com/restic/restic/internal/global"
+	"github.com/restic/restic/internal/repository"
+	"github.com/restic/restic/internal/restic"
 	"github.com/restic/restic/internal/ui"
 	"github.com/restic/restic/internal/verif/hx"
+	"github.com/restic/restic/internal/verif/simbe"
 	"github.com/restic/restic/internal/verif/simrt"
 )
 
@@ -302,6 +305,67 @@ func TestVerifC29(t *testing.T) {
 					break
 				}
 			}
+			// a key switch inside one process that fails when the config is loaded with the new key: the key
+			// in use is still the old one, it keeps its protection and the other key stays removable
+			if !r.Failed() && tp.Choose(2) == 0 {
+				failFrom := tp.Choose(3) // which load of the config during the switch starts to fail for good
+				pr := w.newProc("switch")
+				_ = pr.run(func(ctx context.Context, g global.Options, term ui.Terminal) error {
+					repo, err := openRepo(ctx, g, term)
+					if err != nil {
+						r.Count("switch_open_failed", 1)
+						return nil
+					}
+					orig := repo.KeyID()
+					npw++
+					pwNew := fmt.Sprintf("pw-%d", npw)
+					nk, err := repository.AddKey(ctx, repo, pwNew, "", "", repo.Key())
+					if err != nil {
+						r.Count("switch_addkey_failed", 1)
+						return nil
+					}
+					km[nk.ID().String()] = pwNew
+					universe = append(universe, pwNew)
+					loads := 0
+					pr.cl.Script = func(op string, h backend.Handle, _ int) *simbe.Forced {
+						if op != "Load" || h.Type != backend.ConfigFile {
+							return nil
+						}
+						loads++
+						if loads > failFrom {
+							w.s.Count("fault:config-load-fails-during-key-switch")
+							return &simbe.Forced{Kind: "err-before"}
+						}
+						return nil
+					}
+					serr := repo.SearchKey(ctx, pwNew, 0, nk.ID().String())
+					pr.cl.Script = nil
+					where := fmt.Sprintf("history %v then a key switch in one process whose config load fails (switch error: %v)", hist, serr)
+					inUse := orig
+					other := nk.ID()
+					if serr == nil {
+						inUse, other = nk.ID(), orig
+					}
+					if repo.KeyID() != inUse {
+						r.Fail("remove-current", "key-id-after-failed-switch", "%s: the repository handle names key %s as the one in use, it works with key %s", where, shortID(repo.KeyID()), shortID(inUse))
+					}
+					if rerr := repository.RemoveKey(ctx, repo, inUse); rerr == nil || w.store.Get(backend.Handle{Type: backend.KeyFile, Name: inUse.String()}) == nil {
+						r.Fail("remove-current", "current-key-removed", "%s: removing the key in use (%s) was not refused", where, shortID(inUse))
+					}
+					if rerr := repository.RemoveKey(ctx, repo, other); rerr != nil {
+						r.Fail("remove-other", "other-key-not-removable", "%s: removing key %s, which is not the one in use, was refused: %v", where, shortID(other), rerr)
+					} else {
+						delete(km, other.String())
+						if serr == nil {
+							w.pw = pwNew
+						}
+					}
+					return nil
+				})
+				w.postRun()
+				w.recoverLocksWith("after the in-process key switch")
+				w.judgeKeys(km, universe, "after the in-process key switch")
+			}
 			r.Set("history", fmt.Sprint(append(hist, o.kind+"(swept)")))
 			r.Count("crash_points", points)
 			var ks []string
@@ -325,3 +389,5 @@ func (w *world) recoverLocksWith(where string) {
 		}
 	})
 }
+
+func shortID(id restic.ID) string { return id.String()[:8] }
